@@ -106,11 +106,11 @@ PROPS = {
                  'reading of the statement: collection is in snapshot order by design, an older open snapshot pins later garbage (recorded by-design finding D18)'],
     ),
     'C05': dict(
-        modules=['NitroVerif.Props.C05', 'NitroVerif.Props.C10', 'NitroVerif.Props.C18'],
+        modules=['NitroVerif.Props.C05', 'NitroVerif.Props.C05e2e', 'NitroVerif.Props.C10', 'NitroVerif.Props.C18'],
         runs=[('mvcc', gens.gen_backup, 120, 6000), ('mvcc', gens.gen_mvcc_visit, 100, 5000)],
         keep_prefix=1,
         level='proof',
-        level_text='C05_roundtrip (any partition of the content into shard files), C05_roundtrip_delta_general and C05_delta_any_interleaving are proved on the backup model over an abstract file system (framing from C19, assembly in file order); that the Visitor produces a partition is C10, that the assembled list is well formed is C18. Differential: random histories, store of any open snapshot with mutation and collection during the backup (delta on/off), restore into a fresh instance, scan, continue the history',
+        level_text='C05_end_to_end (what the Visitor of the MVCC model hands to the shard writers, framed and described by the manifests, loads back as exactly the snapshot content, for every pivot list), C05_roundtrip (any partition of the content into shard files), C05_roundtrip_delta_general and C05_delta_any_interleaving are proved on the backup model over an abstract file system (framing from C19, assembly in file order); that the Visitor produces a partition is C10, that the assembled list is well formed is C18. Differential: random histories, store of any open snapshot with mutation and collection during the backup (delta on/off), restore into a fresh instance, scan, continue the history',
         trusted=['Lean 4 kernel', 'tools/gofacts translation of the checksum tests, delta visibility test, skeletons of StoreToDisk/LoadFromDisk',
                  'differential run of store/load round trips on the real code, including churn during the backup through the item callback',
                  'encoding/json, bufio, os are parameters of the model; crc32 is generic in the theorems'],
